@@ -39,6 +39,10 @@ CLAIMED = {
    text="The authentication gate as contracts over the abstract per-connection state authd: firewall passes a message iff authd or service 0; the per-connection consumer loop of server.handle hands a message to the router only on a path where firewall accepted it (mid-body assertion), otherwise replies with an error and closes; serviceAuthenticate.Authenticate can set authd only if it already was set or the Authenticator accepts exactly the StringValue user/token entries of the client's map (nothing else of the map is read; wrongly typed credentials change nothing); service 0 answers any other action with an error and changes nothing; wrapAuthenticate is the only caller; the concrete channel ties authd to its own capability map (CapabilityMap.Authenticated == state entry is Uint/Int 3, SetAuthenticated touches only that key). All message fields, payloads, capability maps and authenticators are symbolic.",
    note="authd changes only through these clauses, which is the inductive invariant over a connection's message history (composition argued, not machine-checked). Per-connection freshness of the capability map (DefaultCap in handle) and tracedChannel are not under contract; received messages are assumed non-nil; server.Router and channel.endpoint are assumed immutable after set-up. Abstract: Authenticator (uninterpreted answer), Channel send methods.",
    technique="contract-based deductive verification with ghost authentication state, SMT", ref="7 C06"),
+ "C04": dict(level="proof",
+   text="Per-function obligations of the call path: a mailbox hands only Call and Post messages to its object (other kinds never run a method); every generated stub method of the Object interface under contract invokes the implementation at most once, answers a Call with exactly one of reply/error, answers a decode failure with an error without calling the implementation, and sends nothing for a Post; channel.SendReply/SendError send a message carrying the request's id, service, object and action with type Reply/Error; client message ids are allocated under the mutex and advance by 2; the reply filter of client.Call selects exactly (service, object, action, id) and removes itself; client.Call registers the reply handler before sending (mid-body assertion); the server-side connection filter passes only Call/Post/Capability/Cancel; Router.Receive answers an unknown service with one error.",
+   note="Composition over all interleavings (one mailbox goroutine per object, monitor rule for the handler table and the id counter) is argued in DESIGN.md, not machine-checked. Stub methods covered: 11 of bus/object_stub_gen.go (Stats with its map marshalling, and the stubs of the other generated files, are not under contract). Implementation methods are abstract with a ghost call counter and are assumed not to answer the request themselves. Ids distinct only for fewer than 2^31 calls per client.",
+   technique="contract-based deductive verification with ghost invocation/reply counters, SMT", ref="7 C04"),
 }
 
 NOT_APPLICABLE = {
